@@ -110,6 +110,10 @@ def load_sources(ctx, n_mut_per_file, include_known=True, gen=0, pid=None):
         for fn in sorted(os.listdir(d)):
             if fn.endswith(".wuffs"):
                 res.append((fn[:-6], open(os.path.join(d, fn)).read(), origin))
+    if include_known:
+        import wgen
+        for name, text in wgen.stalefact_programs():
+            res.append((name, text, "must-reject"))
     base = [r for r in res if r[2] == "corpus"]
     for name, text, _ in base:
         for desc, t2 in mutants(text, ctx.rng, n_mut_per_file):
